@@ -581,6 +581,12 @@ func (fx *vfc07Fixture) vfc07Range(rng *rand.Rand) (int64, int64) {
 	case 4:
 		x := pick()
 		return x, x
+	case 5: // ends exactly on an edge (first sample of a block / chunk, block max time)
+		e := fx.edges[rng.Intn(len(fx.edges))]
+		return e - []int64{0, 1, vfc07Step, 100 * vfc07Step}[rng.Intn(4)], e
+	case 6: // starts exactly on an edge
+		e := fx.edges[rng.Intn(len(fx.edges))]
+		return e, e + []int64{0, 1, vfc07Step, 100 * vfc07Step}[rng.Intn(4)]
 	default:
 		a, b := pick(), pick()
 		if a > b {
